@@ -1407,7 +1407,15 @@ class DiffGen:
         if c == 6:
             self.tag("comprehension-if")
             a, na = self.S(d - 1)
-            return ("[q for q in %s if q > %s]" % (a, self.lit()), None)
+            k = rng.randrange(4)
+            if k == 0:
+                return ("[q for q in %s if q > %s]" % (a, self.lit()), None)
+            if k == 1:      # several trailing if clauses: ALL of them must hold
+                return ("[q for q in %s if q > %s if q %% 2 == %d if q != %s]" % (a, self.lit(), rng.randrange(2), self.lit()), None)
+            if k == 2:      # nested for clauses with a condition between them
+                return ("[q + r_ for q in %s if q %% 2 == %d for r_ in range(%d) if r_ != q]" % (a, rng.randrange(2), rng.randint(1, 3)), None)
+            return ("[v_ for v_ in {w_: w_ * %s for w_ in %s if w_ %% 2 == %d if w_ > %s}.values()]"
+                    % (self.nz(), a, rng.randrange(2), self.lit()), None)
         if c == 7:
             self.tag("range")
             n = rng.randint(1, 4)
@@ -1450,7 +1458,10 @@ class DiffGen:
             self.tag("dict-comprehension")
             s_, n = self.S(0)
             keys = ["a", "b", "c", "e"][:n] if n else []
-            return "{k_: v_ * 2 for k_, v_ in zip(('a', 'b', 'c', 'e'), %s)}" % s_, keys
+            if rng.random() < 0.5:
+                return "{k_: v_ * 2 for k_, v_ in zip(('a', 'b', 'c', 'e'), %s)}" % s_, keys
+            # conditions that hold for every item (the key set stays known): two trailing if clauses
+            return ("{k_: v_ * 2 for k_, v_ in zip(('a', 'b', 'c', 'e'), %s) if k_ != 'z' if v_ == v_}" % s_), keys
         self.tag("dict-call")
         return "dict(a=%s, b=%s)" % (self.I(0), self.I(0)), ["a", "b"]
 
@@ -1649,6 +1660,9 @@ DIFF_CORPUS = [
     (["return dig((first_gt([1, 5, 9], 4), first_gt((1, 2), 4), count_if([1, 5, 9], 4)))"], "constant for with early return"),
     (["return dig(({k_: v_ * 2 for k_, v_ in zip(('a', 'b'), [1, 2])}, [q * q for q in range(4) if q != 2], {**{'a': 1}, 'e': 2}))"],
      "comprehensions"),
+    (["return dig(({v_: v_ * v_ for v_ in (1, 2, 3, 4, 5, 6) if v_ % 2 == 0 if v_ > 2}, [q for q in range(9) if q % 2 == 1 if q > 2 if q < 8], "
+      "[a_ * b_ for a_ in range(3) if a_ != 1 for b_ in range(3) if b_ > a_], {k_: [j for j in range(k_) if j if j != 2] for k_ in (3, 4) if k_}))"],
+     "comprehensions with several if clauses / nested for clauses"),
     (["return dig((Q(2).dbl, P(2).dbl, Q(2)(3), P(2)(3, s=1), Q(1, z=5).w, (2 + P(1)).v, (5 - P(1)).v, (P(1) + R(2)).v, (-P(3)).v, Q(2).twice()))"],
      "classes / properties / __call__ / reflected operators"),
 ]
